@@ -89,6 +89,8 @@ pub fn ecm(n: &BigInt, conf: ECMConfig) -> (BigInt, u64) {
     debug_assert!(!prime::is_prime(n));
 
     let mut rng = rand::thread_rng();
+    #[cfg(feature = "verif-hooks")]
+    let mut rng = crate::verif_hooks::rng();
 
     let mut count = 0u64;
 
@@ -410,5 +412,46 @@ mod tests {
         let n = BigInt::from(1_000_000_007u128 * 1_000_000_007u128);
         let factors = factorize(&n);
         assert_eq!(factors.len(), 1);
+    }
+}
+
+/// Verification wrappers around private items (feature `verif-hooks` only).
+#[cfg(feature = "verif-hooks")]
+pub mod verif {
+    use super::*;
+    pub type P3 = (BigInt, BigInt, BigInt);
+    fn pt(p: &P3) -> Point {
+        Point {
+            x: p.0.clone(),
+            y: p.1.clone(),
+            z: p.2.clone(),
+        }
+    }
+    fn tup(p: Point) -> P3 {
+        (p.x, p.y, p.z)
+    }
+    pub fn select_b(n: &BigInt) -> u64 {
+        super::select_b(n)
+    }
+    pub fn point_add(p: &P3, q: &P3, a: &BigInt, n: &BigInt) -> Result<P3, BigInt> {
+        let curve = Ell {
+            a: a.clone(),
+            n: n.clone(),
+        };
+        pt(p).add(&pt(q), &curve).map(tup)
+    }
+    pub fn point_mul(p: &P3, e: &BigInt, a: &BigInt, n: &BigInt) -> Result<P3, BigInt> {
+        let curve = Ell {
+            a: a.clone(),
+            n: n.clone(),
+        };
+        pt(p).mul(e.clone(), &curve).map(tup)
+    }
+    pub fn oneshot(p: &P3, a: &BigInt, n: &BigInt, b1: u64, b2: u64) -> Result<(), BigInt> {
+        let curve = Ell {
+            a: a.clone(),
+            n: n.clone(),
+        };
+        ecm_oneshot(pt(p), curve, b1, b2)
     }
 }
